@@ -330,6 +330,23 @@ def _its_fail_chunk(cases):
     return res[0].detail
 
 
+def _its_depth_ok(seq):
+    """the caller's own pushes stay within the back-end's depth (only XP is refused) and pops match pushes"""
+    d = 0
+    for x in seq:
+        if x == "P":
+            d += 1
+            if d > 2:
+                return False
+        elif x == "O":
+            if d == 0:
+                return False
+            d -= 1
+        elif x == "XP" and d + 2 <= 2:
+            return False
+    return True
+
+
 _IFCACHE = {}
 
 
@@ -337,6 +354,10 @@ def its_failure_results(repo, tier="quick"):
     key = (repo.root, tier)
     if key not in _IFCACHE:
         cases = [(h, t) for h in ITS_F_HEADS for t in ITS_F_TAILS]
+        if tier == "thorough":
+            cases += [(h1 + h2, t) for h1 in ITS_F_HEADS[:5] for h2 in ITS_F_HEADS[:5] for t in ITS_F_TAILS]
+            cases += [(h, t1 + t2) for h in ITS_F_HEADS for t1 in ITS_F_TAILS for t2 in ITS_F_TAILS[1:4]]
+            cases = [c for c in cases if _its_depth_ok(c[0] + c[1])]
         chunks = [cases[i:i + 4] for i in range(0, len(cases), 4)]
         out = []
         for r in parallel_map(_its_fail_chunk, chunks):
@@ -904,6 +925,10 @@ def text_failure_results(repo, tier="quick"):
     key = (repo.root, tier)
     if key not in _FCACHE:
         cases = [(h, t) for h in F_HEADS for t in F_TAILS]
+        if tier == "thorough":
+            # two failing episodes, and longer continuations
+            cases += [(h1 + h2, t) for h1 in F_HEADS[:4] for h2 in F_HEADS[:5] for t in F_TAILS]
+            cases += [(h, t1 + t2) for h in F_HEADS for t1 in F_TAILS[:3] for t2 in F_TAILS[3:]]
         chunks = [cases[i:i + 3] for i in range(0, len(cases), 3)]
         out = []
         for r in parallel_map(_fail_chunk, chunks):
